@@ -64,7 +64,8 @@ def correspondence(ctx, n_length=None, tag=""):
         inv_checks.append(f"all_prefixes_ok inv_b (init_st 3) {ops}")
         proto_checks.append(("inv_succeeded_b", f"all_prefixes_ok inv_succeeded_b (init_st 3) {ops}"))
         proto_checks.append(("inv_running_nohash_b", f"all_prefixes_ok inv_running_nohash_b (init_st 3) {ops}"))
-        proto_checks.append(("protocol_run_b", f"protocol_run_b (init_st 3) {ops}"))
+        proto_checks.append(("protocol_ok_run", f"protocol_ok_run (init_st 3) {ops}"))
+        proto_checks.append(("inv_full_b", f"all_prefixes_ok inv_full_b (init_st 3) {ops}"))
     ctx.sample({"trace_prefix": [list(map(str, t[:2])) for t in traces[0][0][:8]]})
     fixed = [(n, tr) for n, tr in fixed_traces(ctx).items() if tr is not None]
     fbad = common.run_cases(ctx, "e2fixed", header, [e2.cq_trace(tr, 3) for _, tr in fixed], chunk=6)
@@ -178,14 +179,14 @@ def fixed_traces(ctx):
 def _proto_failures(ctx, header, proto_checks, traces):
     """I4 (a SUCCEEDED step has all its outputs built), RUNNING implies no stored hash, and the hold
     protocol, evaluated by the model on every prefix of every executed trace."""
-    bad = common.run_cases(ctx, "proto", header, [c for _, c in proto_checks], chunk=18)
+    bad = common.run_cases(ctx, "proto", header, [c for _, c in proto_checks], chunk=16)
     seen = set()
     for b in bad:
         name = proto_checks[b][0]
         if name in seen:
             continue
         seen.add(name)
-        tr = traces[b // 3][0]
+        tr = traces[b // 4][0]
         ctx.add_failure("correspondence", f"E2:{name}", f"E2:{name}-false-on-reachable-state",
                         f"{name} is false on a prefix of a trace that the implementation executed",
                         witness={"ops": [list(map(str, t[:2])) for t in tr]})
